@@ -32,6 +32,10 @@ type ResultSet struct {
 	Desc     []bool
 	Offset   int64
 	Count    int64 // -1: no LIMIT
+
+	// Matched is the number of (joined) rows that passed WHERE, before any
+	// grouping (for a UNION: the sum over its selects).
+	Matched int
 }
 
 // Parse parses one statement with Gaea's parser.
@@ -453,7 +457,7 @@ func evalSelect(stmt *ast.SelectStmt, cat Catalog) (*ResultSet, error) {
 		outs = kept
 	}
 
-	rs := &ResultSet{Count: -1}
+	rs := &ResultSet{Count: -1, Matched: len(rows)}
 	for _, it := range items {
 		rs.Cols = append(rs.Cols, it.meta)
 	}
@@ -578,6 +582,7 @@ func evalUnion(stmt *ast.UnionStmt, cat Catalog) (*ResultSet, error) {
 	}
 	var acc [][]Value
 	var cols []ColMeta
+	matched := 0
 	for i, sel := range stmt.SelectList.Selects {
 		r, err := evalSelect(sel, cat)
 		if err != nil {
@@ -594,6 +599,7 @@ func evalUnion(stmt *ast.UnionStmt, cat Catalog) (*ResultSet, error) {
 			}
 		}
 		acc = append(acc, r.Rows...)
+		matched += r.Matched
 		if i > 0 && sel.IsAfterUnionDistinct {
 			seen := map[string]bool{}
 			var kept [][]Value
@@ -607,7 +613,7 @@ func evalUnion(stmt *ast.UnionStmt, cat Catalog) (*ResultSet, error) {
 			acc = kept
 		}
 	}
-	rs := &ResultSet{Cols: cols, Count: -1}
+	rs := &ResultSet{Cols: cols, Count: -1, Matched: matched}
 	type kr struct {
 		row  []Value
 		keys []Value
